@@ -1028,6 +1028,10 @@ func (s *scanner) ScanBytes(accept func(b byte) bool) error {
 			}
 			return err
 		}
+		if err != nil && s.pos >= s.used {
+			// refill failed without adding data (latched read error)
+			return err
+		}
 	}
 }
 
